@@ -4,6 +4,7 @@ package main
 // A time.Time value is abstracted to its instant in nanoseconds (inst); Duration is an int64 count of nanoseconds.
 
 import (
+	"fmt"
 	"strings"
 
 	"golang.org/x/tools/go/ssa"
@@ -16,9 +17,39 @@ func (x *Exec) instOf(v Value) *Term {
 	return App("tinst", SInt, w, e)
 }
 
+// zoneOff: the offset (in nanoseconds) of the location a time value carries; a nil location is UTC. One unknown constant
+// per Location object (the offset's dependence on the instant - DST - is not modelled: the property's instants are DST-free).
+func (x *Exec) zoneOff(v Value) *Term {
+	sv := v.(*StructVal)
+	if len(sv.Fields) < 3 {
+		return IntLit(0)
+	}
+	p, ok := sv.Fields[2].(*PtrVal)
+	if !ok || p.Obj == nil {
+		return IntLit(0)
+	}
+	if p.Obj == x.utcLoc {
+		return IntLit(0)
+	}
+	off := Const(fmt.Sprintf("tzoff.%d", p.Obj.ID), SInt)
+	if p.Nil != nil {
+		return Ite(p.Nil, IntLit(0), off)
+	}
+	return off
+}
+
+func (x *Exec) withLoc(r Value, loc Value) Value {
+	sv := r.(*StructVal)
+	n := &StructVal{Typ: sv.Typ, Fields: append([]Value(nil), sv.Fields...)}
+	if len(n.Fields) >= 3 {
+		n.Fields[2] = loc
+	}
+	return n
+}
+
 func init() {
 	assumptionText["A-FLOAT"] = "int(d.Hours()), int(d.Hours()/24), int(d.Minutes()), int(d.Seconds()) equal the integer quotients of the nanosecond count for 0 <= d < 4096h (float64 rounding changes the result only above; measured in DESIGN.md section 4 C19); beyond that range nothing is claimed"
-	assumptionText["A-TIMEPKG"] = "time.ParseDuration is a partial function of its argument (parsedur / parseok); Time.Add/Before/UTC/Format act on the abstract instant; Format(\"060102150405\") yields 12 characters (tfmt12)"
+	assumptionText["A-TIMEPKG"] = "time.ParseDuration is a partial function of its argument (parsedur / parseok); Time.Add/Before act on the abstract instant and keep the location, UTC() keeps the instant and sets the location to UTC, Format prints the wall clock of the location (instant + an unknown per-location offset, 0 for UTC; DST not modelled); Format(\"060102150405\") yields 12 characters (tfmt12)"
 	assumptionText["A-FMT2"] = "fmt.Sprintf(\"0000%02d%02d%02d%02d000R\", a, b, c, e) is \"0000\" dec2(a) dec2(b) dec2(c) dec2(e) \"000R\" with two-character dec2 for 0..99"
 	reg("time.ParseDuration", func(x *Exec, st *State, fr *Frame, in ssa.Instruction, callee *ssa.Function, args []Value) []Value {
 		x.assume("A-TIMEPKG")
@@ -33,12 +64,17 @@ func init() {
 	reg("time.(Time).Add", func(x *Exec, st *State, fr *Frame, in ssa.Instruction, callee *ssa.Function, args []Value) []Value {
 		x.assume("A-TIMEPKG")
 		r := x.freshValue(st, callee.Signature.Results().At(0).Type(), "tadd", false)
+		r = x.withLoc(r, args[0].(*StructVal).Fields[2]) // Add keeps the location
 		st.Assume(Eq(x.instOf(r), Add(x.instOf(args[0]), x.toInt(args[1].(*Term)))))
 		return one(r)
 	})
 	reg("time.(Time).UTC", func(x *Exec, st *State, fr *Frame, in ssa.Instruction, callee *ssa.Function, args []Value) []Value {
 		x.assume("A-TIMEPKG")
 		r := x.freshValue(st, callee.Signature.Results().At(0).Type(), "tutc", false)
+		if x.utcLoc == nil {
+			x.utcLoc = newObj(ObjCell, nil, "time.UTC", false)
+		}
+		r = x.withLoc(r, &PtrVal{Obj: x.utcLoc, Nil: TFalse}) // same instant, location UTC
 		st.Assume(Eq(x.instOf(r), x.instOf(args[0])))
 		return one(r)
 	})
@@ -50,7 +86,8 @@ func init() {
 	reg("time.(Time).Format", func(x *Exec, st *State, fr *Frame, in ssa.Instruction, callee *ssa.Function, args []Value) []Value {
 		if layout := args[1].(*Term); layout == x.strLit(st, "060102150405") {
 			x.assume("A-TIMEPKG")
-			r := App("tfmt12", SBytes, x.instOf(args[0]))
+			// the wall clock printed is that of the value's location: instant + zone offset
+			r := App("tfmt12", SBytes, Add(x.instOf(args[0]), x.zoneOff(args[0])))
 			st.Assume(Eq(App("len", SInt, r), IntLit(12)))
 			return one(r)
 		}
